@@ -842,6 +842,44 @@ theorem gather_order_irrelevant (skip : Bool) (m : Spec) :
     · rw [if_pos h, if_pos (hp.mem_iff.mp h)]
     · rw [if_neg h, if_neg (fun h2 => h (hp.mem_iff.mpr h2))]
 
+/-- **Every interleaving of the upload tasks gives the same store.**  With `skip_existing` each gathered task makes up to two
+backend calls (`exists`, then `upload_stream` if the answer was `False`) and the calls of different tasks interleave (`runSchedule`:
+every pick is the next backend call of the picked task).  For distinct names and
+every schedule (any order, any repetition of picks, picks of finished or unknown tasks allowed) after which all tasks are done,
+the map is the one the sequential model computes: no task's `exists` answer can be invalidated by another task, because the
+others write to other names.  (For `download_objects` and `delete_objects` a task makes one backend call, so the task-level
+permutations of `gather_order_irrelevant` are all the interleavings there are.) -/
+theorem upload_interleaving_irrelevant (skip : Bool) (m0 : Spec) (items : List (Name × Bytes)) (hnd : (items.map (·.1)).Nodup)
+    (sched : List Name) (hdone : ∀ t ∈ (runSchedule skip m0 (initTasks items) sched).2, t.phase = .done) :
+    (runSchedule skip m0 (initTasks items) sched).1 = upSpec skip m0 items := by
+  have hg := good_run skip m0 items sched m0 _ (good_init skip m0 items)
+  funext n
+  by_cases hn : n ∈ items.map (·.1)
+  · rw [← hg.names] at hn
+    obtain ⟨t, ht, rfl⟩ := List.mem_map.mp hn
+    have hp := hg.phase t ht
+    rw [hdone t ht] at hp
+    simp only at hp
+    rw [hp]
+    by_cases hc : skip = true ∧ (m0 t.name).isSome = true
+    · rw [if_pos hc, hc.1, upSpec_skip_keeps _ _ _ hc.2]
+    · rw [if_neg hc]
+      symm
+      apply upSpec_mem skip m0 items hnd _ _ (hg.mem t ht)
+      cases skip with
+      | false => exact Or.inl rfl
+      | true => right; simpa using hc
+  · rw [hg.other n hn, upSpec_not_mem _ _ _ _ hn]
+
+/-- non-vacuity: three tasks whose calls interleave (`exists c`, `exists a` — it exists, skipped —, `exists b`, `upload b`, a pick
+of the finished `b`, `upload c`): the schedule completes and the store is the sequential one -/
+example :
+    let m0 : Spec := MapStore.abs [("a".toList, [7])]
+    let r := runSchedule true m0 (initTasks [("a".toList, [1]), ("b".toList, [2]), ("c".toList, [3])])
+      ["c".toList, "a".toList, "b".toList, "b".toList, "b".toList, "c".toList]
+    r.2.map (·.phase) = [.done, .done, .done] ∧ r.1 "a".toList = some [7] ∧ r.1 "b".toList = some [2] ∧ r.1 "c".toList = some [3] := by
+  refine ⟨by decide, by decide, by decide, by decide⟩
+
 /-- what `ObjCmd.lean` assumes about the source of the four commands, read from the current source by the extractor
 (`tools/sections/13_objcmd.py`): the name is the path relative to the common path with the working directory in POSIX form;
 `skip_existing and await self._exists(name)` guards the upload; the chunk size under a rate limit has floor 1 and the default is
